@@ -30,13 +30,14 @@ def section(md, title_words):
 def main():
     want = sys.argv[1:]
     kept = 0
-    for f in sorted(glob.glob(os.path.join(RES, 'C??-?.json')) + glob.glob(os.path.join(RES, 'C??r2-?.json')) + glob.glob(os.path.join(RES, 'C??r3-?.json')) + glob.glob(os.path.join(RES, 'C??r4-?.json'))):
+    for f in sorted(glob.glob(os.path.join(RES, 'C??-?.json')) + glob.glob(os.path.join(RES, 'C??r2-?.json')) + glob.glob(os.path.join(RES, 'C??r3-?.json')) + glob.glob(os.path.join(RES, 'C??r4-?.json')) + glob.glob(os.path.join(RES, 'C??r5-?.json'))):
         base = os.path.basename(f)[:-5]
         tag, n = base.split('-')
         prop = tag[:3]
         r2 = tag.endswith('r2')
         r3 = tag.endswith('r3')
         r4 = tag.endswith('r4')
+        r5 = tag.endswith('r5')
         if want and prop not in want and tag not in want:
             continue
         txt = open(f).read().strip()
@@ -52,8 +53,8 @@ def main():
         if not ok:
             print('skip %s: not confirmed: %s' % (base, c))
             continue
-        src = '/tmp/mut/%s%s.out' % (prop, '.r2' if r2 else ('.r3' if r3 else ('.r4' if r4 else '')))
-        dst = os.path.join(OUT, '%s-%sm%s' % (prop, 'r2' if r2 else ('r3' if r3 else ('r4' if r4 else '')), n))
+        src = '/tmp/mut/%s%s.out' % (prop, '.r2' if r2 else ('.r3' if r3 else ('.r4' if r4 else ('.r5' if r5 else ''))))
+        dst = os.path.join(OUT, '%s-%sm%s' % (prop, 'r2' if r2 else ('r3' if r3 else ('r4' if r4 else ('r5' if r5 else ''))), n))
         os.makedirs(dst, exist_ok=True)
         shutil.copy(os.path.join(src, 'mutant%s.diff' % n), os.path.join(dst, 'patch.diff'))
         shutil.copy(os.path.join(src, 'demo%s.rs' % n), os.path.join(dst, 'demo.rs'))
@@ -73,10 +74,10 @@ def main():
                 checks[p] = {'detected': bool(r.get('detected')), 'status': r.get('status'), 'first_report': first[:400]}
         meta = {
             'id': os.path.basename(dst),
-            'round': 2 if r2 else (3 if r3 else (4 if r4 else 1)),
+            'round': 2 if r2 else (3 if r3 else (4 if r4 else (5 if r5 else 1))),
             'breaks_property': prop,
             'title': title,
-            'origin': 'written by an independent sub-agent that was given only the text of the property and its own scratch worktree of /repo (nothing from /verif)' + ('; second, harder round: the agent was additionally told which ideas the first round had used and asked for subtler changes (long inputs, stride/alignment windows, multi-call interactions, out-of-bounds reads)' if r2 else '') + ('; third round: the agent was told the ideas of both earlier rounds and, in general terms, what a thorough tester already does (short inputs exhaustively, all cuts and near-minimum buffers, planted units around stride boundaries), and asked for what such a tester could still miss' if r3 else '') + ('; fourth round (10 properties): as the third, with the tester described as also planting pairs of special units, uniform runs, adjacent valid / near-valid sequences, block-boundary straddles, table sweeps, below-minimum buffers, every-k runs and multi-megabyte inputs' if r4 else ''),
+            'origin': 'written by an independent sub-agent that was given only the text of the property and its own scratch worktree of /repo (nothing from /verif)' + ('; second, harder round: the agent was additionally told which ideas the first round had used and asked for subtler changes (long inputs, stride/alignment windows, multi-call interactions, out-of-bounds reads)' if r2 else '') + ('; third round: the agent was told the ideas of both earlier rounds and, in general terms, what a thorough tester already does (short inputs exhaustively, all cuts and near-minimum buffers, planted units around stride boundaries), and asked for what such a tester could still miss' if r3 else '') + ('; fourth round (10 properties): as the third, with the tester described as also planting pairs of special units, uniform runs, adjacent valid / near-valid sequences, block-boundary straddles, table sweeps, below-minimum buffers, every-k runs and multi-megabyte inputs' if r4 else '') + ('; fifth round (8 properties): as the fourth, with the round-4 families added to the description of the tester' if r5 else ''),
             'what_changed': section(md, ['change', 'what was changed', 'what'])[:900],
             'needs_to_manifest': section(md, ['needed', 'manifest', 'needs'])[:1200],
             'confirmed_by_me': {
